@@ -319,6 +319,19 @@ func (sc *Script) doCandOpen(c *cliSess) {
 	c.cands = append(c.cands, cand)
 }
 
+// a websocket request naming a session that is already over (the client has not noticed, or is probing)
+func (sc *Script) doCandLate() {
+	for _, c := range sc.ss {
+		if c.S.Sid == "" {
+			continue
+		}
+		if so := sc.w.Sock(c.S.Sid); so != nil && so.ReadyState() == "closed" {
+			sc.w.DialWS(c.S, "", nil, nil)
+			return
+		}
+	}
+}
+
 func (sc *Script) doCandStep(c *cliSess) {
 	if len(c.cands) == 0 {
 		return
@@ -428,6 +441,7 @@ func (sc *Script) Step() {
 		add("overlap", func() { sc.doOverlap(c) })
 	}
 	add("time", sc.doTime)
+	add("candlate", sc.doCandLate)
 	add("gate", sc.doGate)
 	add("srvclose", func() { go sc.w.ServerClose() })
 	if len(acts) == 0 {
@@ -495,7 +509,7 @@ var (
 	wFlow = map[string]int{"max-sessions": 2, "handshake": 1, "poll": 8, "send": 10, "post": 5, "wsmsg": 4, "time": 3, "ws-direct": 30,
 		"jsonp": 15, "preenc": 15, "candopen": 1, "candstep": 4, "gate": 2}
 	wLife = map[string]int{"max-sessions": 3, "handshake": 2, "poll": 5, "send": 4, "post": 3, "wsmsg": 2, "time": 3, "ws-direct": 35,
-		"appclose": 3, "peerclose": 3, "srvclose": 1, "gate": 4, "close-in-payload": 25, "candopen": 1, "candstep": 2}
+		"appclose": 3, "peerclose": 3, "srvclose": 1, "gate": 4, "close-in-payload": 25, "candopen": 1, "candstep": 2, "candlate": 2}
 	wUpg = map[string]int{"max-sessions": 2, "handshake": 1, "poll": 6, "send": 5, "post": 3, "wsmsg": 3, "time": 4,
 		"candopen": 4, "candstep": 12, "gate": 3, "appclose": 1, "peerclose": 1}
 	wPoll = map[string]int{"max-sessions": 2, "handshake": 1, "poll": 8, "send": 5, "post": 6, "time": 3, "overlap": 3,
@@ -518,11 +532,14 @@ func scriptFamily(fam string, seed int64, n int) []Scenario {
 		case "flow":
 			w, gates = wFlow, []string{"polling.send.enter", "ws.send.enter", "upgrade.check", "L.flush", "L.upgrade", "L.drain"}
 		case "life":
-			w, gates = wLife, []string{"socket.onclose.tested", "socket.close.tested", "handshake.constructed", "ws.send.enter", "polling.send.enter", "L.close", "L.flush", "L.message"}
+			w, gates = wLife, []string{"socket.onclose.tested", "socket.close.tested", "handshake.constructed", "ws.send.enter", "polling.send.enter", "L.close", "L.flush", "L.message",
+				"log:readyState updated from %s to %s", "log:closing the transport (discard? %t)", "log:setting new request for existing client", "log:closing"}
 		case "upg":
-			w, gates = wUpg, []string{"upgrade.gated", "upgrade.check", "ws.send.enter", "polling.send.enter", "L.flush", "L.close", "L.upgrade", "L.upgrading"}
+			w, gates = wUpg, []string{"upgrade.gated", "upgrade.check", "ws.send.enter", "polling.send.enter", "L.flush", "L.close", "L.upgrade", "L.upgrading",
+				"log:upgrading existing transport", "log:got upgrade packet - upgrading", "log:got probe ping packet, sending pong"}
 		case "poll":
-			w, gates = wPoll, []string{"polling.poll.tested", "polling.data.tested", "polling.send.enter", "L.message", "L.flush", "L.close"}
+			w, gates = wPoll, []string{"polling.poll.tested", "polling.data.tested", "polling.send.enter", "L.message", "L.flush", "L.close", "rw.write",
+				"log:setting new request for existing client", "log:setting request", "log:aborting ongoing data request"}
 		}
 		if i%3 == 0 {
 			gates = nil // plain runs without any gate
